@@ -1,0 +1,2627 @@
+//go:build verif
+
+// C10 no-panic sweep (worker w-c10): thin contracts for package rel. Every function listed here gets the
+// implicit safety obligations (bounds, nil, type assertions, division, make, nil-map writes, explicit panics)
+// and, where `assigns fresh-only` is stated, the frame obligations of C03.
+// Convention: the `requires x != nil` clauses are the well-formedness precondition "receiver, parameters and the
+// receiver's direct fields of pointer / interface / func type are not nil" (established by the constructors).
+// Read by /verif/engine (govc). Comments only.
+package rel
+
+// reflect.TypeOf(generic{}) is a non-nil reflect.Type; the variable is only set by its initialiser (ASSUMED fact)
+//@ globalfact genericType genericType != nil
+
+// ---- rel/expr_binary.go --------------------------------------------------------------
+
+//@ func newBinExpr(scanner, a, b, op, format, eval)
+//@   tags C10
+//@   assigns fresh-only
+//@   fnparam * pure
+//@   requires a != nil
+//@   requires b != nil
+//@   requires eval != nil
+
+//@ func MakeBinValExpr(op, eval)
+//@   tags C10
+//@   assigns fresh-only
+//@   fnparam * pure
+//@   requires eval != nil
+
+//@ func MakeBinValExpr$1(scanner, a, b)
+//@   tags C10
+//@   assigns fresh-only
+//@   fnparam * pure
+//@   requires a != nil
+//@   requires b != nil
+
+//@ func MakeBinValExpr$1$1(ctx, a, b, p3)
+//@   tags C10
+//@   assigns fresh-only
+//@   fnparam * pure
+//@   requires a != nil
+//@   requires b != nil
+//@   requires captured_eval: eval != nil
+
+//@ func newArithExpr(scanner, a, b, op, eval)
+//@   tags C10
+//@   assigns fresh-only
+//@   fnparam * pure
+//@   requires a != nil
+//@   requires b != nil
+//@   requires eval != nil
+
+//@ func newArithExpr$1(p0, a, b, p3)
+//@   tags C10
+//@   assigns fresh-only
+//@   fnparam * pure
+//@   requires a != nil
+//@   requires b != nil
+//@   requires captured_eval: eval != nil
+
+// no frame claimed: calls a repo function without contract (engine havocs all state; a frame proof would be vacuous)
+//@ func addValues(ctx, scanner, a, b)
+//@   tags C10
+//@   fnparam * pure
+//@   requires a != nil
+//@   requires b != nil
+
+//@ func NewAddExpr(scanner, a, b)
+//@   tags C10
+//@   assigns fresh-only
+//@   fnparam * pure
+//@   requires a != nil
+//@   requires b != nil
+
+//@ func NewAddExpr$1(ctx, a, b, p3)
+//@   tags C10
+//@   assigns fresh-only
+//@   fnparam * pure
+//@   requires a != nil
+//@   requires b != nil
+
+//@ func NewAddArrowExpr(scanner, lhs, rhs)
+//@   tags C10
+//@   assigns fresh-only
+//@   fnparam * pure
+//@   requires lhs != nil
+//@   requires rhs != nil
+
+//@ func NewAddArrowExpr$1(p0, lhs, rhs, p3)
+//@   tags C10
+//@   assigns fresh-only
+//@   fnparam * pure
+//@   requires lhs != nil
+//@   requires rhs != nil
+
+//@ func NewSubExpr(scanner, a, b)
+//@   tags C10
+//@   assigns fresh-only
+//@   fnparam * pure
+//@   requires a != nil
+//@   requires b != nil
+
+//@ func NewSubExpr$1(a, b)
+//@   tags C10
+//@   assigns fresh-only
+//@   fnparam * pure
+
+//@ func NewMulExpr(scanner, a, b)
+//@   tags C10
+//@   assigns fresh-only
+//@   fnparam * pure
+//@   requires a != nil
+//@   requires b != nil
+
+//@ func NewMulExpr$1(a, b)
+//@   tags C10
+//@   assigns fresh-only
+//@   fnparam * pure
+
+//@ func NewDivExpr(scanner, a, b)
+//@   tags C10
+//@   assigns fresh-only
+//@   fnparam * pure
+//@   requires a != nil
+//@   requires b != nil
+
+//@ func NewDivExpr$1(a, b)
+//@   tags C10
+//@   assigns fresh-only
+//@   fnparam * pure
+
+//@ func NewIdivExpr(scanner, a, b)
+//@   tags C10
+//@   assigns fresh-only
+//@   fnparam * pure
+//@   requires a != nil
+//@   requires b != nil
+
+//@ func NewIdivExpr$1(a, b)
+//@   tags C10
+//@   assigns fresh-only
+//@   fnparam * pure
+
+//@ func NewModExpr(scanner, a, b)
+//@   tags C10
+//@   assigns fresh-only
+//@   fnparam * pure
+//@   requires a != nil
+//@   requires b != nil
+
+//@ func NewModExpr$1(a, b)
+//@   tags C10
+//@   assigns fresh-only
+//@   fnparam * pure
+
+//@ func NewSubModExpr(scanner, a, b)
+//@   tags C10
+//@   assigns fresh-only
+//@   fnparam * pure
+//@   requires a != nil
+//@   requires b != nil
+
+//@ func NewSubModExpr$1(a, b)
+//@   tags C10
+//@   assigns fresh-only
+//@   fnparam * pure
+
+//@ func NewPowExpr(scanner, a, b)
+//@   tags C10
+//@   assigns fresh-only
+//@   fnparam * pure
+//@   requires a != nil
+//@   requires b != nil
+
+//@ func NewPowExpr$1(a, b)
+//@   tags C10
+//@   assigns fresh-only
+//@   fnparam * pure
+
+//@ func NewWithExpr(scanner, a, b)
+//@   tags C10
+//@   assigns fresh-only
+//@   fnparam * pure
+//@   requires a != nil
+//@   requires b != nil
+
+//@ func NewWithExpr$1(p0, a, b, p3)
+//@   tags C10
+//@   assigns fresh-only
+//@   fnparam * pure
+//@   requires a != nil
+//@   requires b != nil
+
+//@ func NewWithoutExpr(scanner, a, b)
+//@   tags C10
+//@   assigns fresh-only
+//@   fnparam * pure
+//@   requires a != nil
+//@   requires b != nil
+
+//@ func NewWithoutExpr$1(p0, a, b, p3)
+//@   tags C10
+//@   assigns fresh-only
+//@   fnparam * pure
+//@   requires a != nil
+//@   requires b != nil
+
+// no frame claimed: calls a repo function without contract (engine havocs all state; a frame proof would be vacuous)
+//@ func NewWhereExpr(scanner, a, pred)
+//@   tags C10
+//@   fnparam * pure
+//@   requires a != nil
+//@   requires pred != nil
+
+// (not under contract here: NewWhereExpr$1 — first pass: 1 of 12 obligations not proved (safe.nil×1))
+
+// (not under contract here: NewWhereExpr$1$1 — first pass: 1 of 1 obligations not proved (safe.nil×1))
+
+// no frame claimed: calls a repo function without contract (engine havocs all state; a frame proof would be vacuous)
+//@ func NewOrderByExpr(scanner, a, key)
+//@   tags C10
+//@   fnparam * pure
+//@   requires a != nil
+//@   requires key != nil
+
+// (not under contract here: NewOrderByExpr$1 — first pass: 1 of 11 obligations not proved (pre×1))
+
+// no frame claimed: calls a repo function without contract (engine havocs all state; a frame proof would be vacuous)
+//@ func NewOrderByExpr$1$1(value)
+//@   tags C10
+//@   fnparam * pure
+//@   requires value != nil
+
+//@ func NewOrderByExpr$1$2(a, b)
+//@   tags C10
+//@   assigns fresh-only
+//@   fnparam * pure
+//@   requires a != nil
+//@   requires b != nil
+
+// no frame claimed: calls a repo function without contract (engine havocs all state; a frame proof would be vacuous)
+//@ func NewOrderExpr(scanner, a, key)
+//@   tags C10
+//@   fnparam * pure
+//@   requires a != nil
+//@   requires key != nil
+
+// (not under contract here: NewOrderExpr$1 — first pass: 1 of 11 obligations not proved (pre×1))
+
+//@ func NewOrderExpr$1$1(value)
+//@   tags C10
+//@   assigns fresh-only
+//@   fnparam * pure
+//@   requires value != nil
+
+// no frame claimed: calls a repo function without contract (engine havocs all state; a frame proof would be vacuous)
+//@ func NewOrderExpr$1$2(a, b)
+//@   tags C10
+//@   fnparam * pure
+//@   requires a != nil
+//@   requires b != nil
+
+// no frame claimed: calls a repo function without contract (engine havocs all state; a frame proof would be vacuous)
+//@ func NewRankExpr(scanner, a, key)
+//@   tags C10
+//@   fnparam * pure
+//@   requires a != nil
+//@   requires key != nil
+
+// no frame claimed: calls a repo function without contract (engine havocs all state; a frame proof would be vacuous)
+//@ func NewRankExpr$1(ctx, a, tuplef, local)
+//@   tags C10
+//@   fnparam * pure
+//@   requires a != nil
+//@   requires tuplef != nil
+
+// no frame claimed: calls a repo function without contract (engine havocs all state; a frame proof would be vacuous)
+//@ func NewRankExpr$1$1(v)
+//@   tags C10
+//@   fnparam * pure
+//@   requires v != nil
+
+// no frame claimed: calls a repo function without contract (engine havocs all state; a frame proof would be vacuous)
+//@ func Call(ctx, a, b, p3)
+//@   tags C10
+//@   fnparam * pure
+//@   requires a != nil
+//@   requires b != nil
+
+//@ func NewCallExpr(scanner, a, b)
+//@   tags C10
+//@   assigns fresh-only
+//@   fnparam * pure
+//@   requires a != nil
+//@   requires b != nil
+
+// (not under contract here: NewCallExprCurry — first pass: 2 of 3 obligations not proved (pre×2))
+
+//@ func (*BinExpr).String(e;)
+//@   tags C10
+//@   assigns fresh-only
+//@   fnparam * pure
+//@   requires e != nil
+//@   requires e.a != nil
+//@   requires e.b != nil
+//@   requires e.eval != nil
+
+// no frame claimed: calls a repo function without contract (engine havocs all state; a frame proof would be vacuous)
+//@ func (*BinExpr).Eval(e; ctx, local)
+//@   tags C10
+//@   fnparam * pure
+//@   requires e != nil
+//@   requires e.a != nil
+//@   requires e.b != nil
+//@   requires e.eval != nil
+
+//@ func evalValForAddArrow(lhs, rhs)
+//@   tags C10
+//@   assigns fresh-only
+//@   fnparam * pure
+//@   requires lhs != nil
+//@   requires rhs != nil
+
+// no frame claimed: the function writes caller-visible state or the frame is beyond the thin contract (frame.G.fspending)
+//@ func mergeDicts(lhs, rhs)
+//@   tags C10
+//@   fnparam * pure
+
+// ---- rel/expr_dot.go -----------------------------------------------------------------
+
+//@ func (MissingAttrError).Error(m;)
+//@   tags C10
+//@   assigns fresh-only
+//@   fnparam * pure
+//@   requires m.ctxErr != nil
+
+//@ func NewDotExpr(scanner, lhs, attr)
+//@   tags C10
+//@   assigns fresh-only
+//@   fnparam * pure
+//@   requires lhs != nil
+
+//@ func (*DotExpr).Subject(x;)
+//@   tags C10
+//@   assigns fresh-only
+//@   fnparam * pure
+//@   requires x != nil
+//@   requires x.lhs != nil
+
+//@ func (*DotExpr).Attr(x;)
+//@   tags C10
+//@   assigns fresh-only
+//@   fnparam * pure
+//@   requires x != nil
+//@   requires x.lhs != nil
+
+//@ func (*DotExpr).String(x;)
+//@   tags C10
+//@   assigns fresh-only
+//@   fnparam * pure
+//@   requires x != nil
+//@   requires x.lhs != nil
+
+// (not under contract here: (*DotExpr).Eval — first pass: 24 of 97 obligations not proved (safe.nil×8, pre×1))
+
+// (not under contract here: (*DotExpr).Eval$1 — first pass: 11 of 16 obligations not proved (safe.nil×10, safe.panic×1))
+
+// (not under contract here: (*DotExpr).Eval$2 — first pass: 1 of 1 obligations not proved (unsupported×1))
+
+// ---- rel/expr_reduce.go --------------------------------------------------------------
+
+//@ func NewReduceExpr(scanner, a, f, format, init, reduce, output)
+//@   tags C10
+//@   assigns fresh-only
+//@   fnparam * pure
+//@   requires a != nil
+//@   requires f != nil
+//@   requires init != nil
+//@   requires reduce != nil
+//@   requires output != nil
+
+// (not under contract here: NewSumExpr — first pass: 1 of 5 obligations not proved (pre×1))
+
+//@ func NewSumExpr$1(s)
+//@   tags C10
+//@   assigns fresh-only
+//@   fnparam * pure
+//@   requires s != nil
+
+// (not under contract here: NewSumExpr$2 — first pass: 1 of 1 obligations not proved (safe.assert×1))
+
+// (not under contract here: NewSumExpr$3 — first pass: 1 of 1 obligations not proved (safe.assert×1))
+
+// (not under contract here: NewMaxExpr — first pass: 1 of 5 obligations not proved (pre×1))
+
+//@ func NewMaxExpr$1(s)
+//@   tags C10
+//@   assigns fresh-only
+//@   fnparam * pure
+//@   requires s != nil
+
+// (not under contract here: NewMaxExpr$2 — first pass: 1 of 2 obligations not proved (safe.assert×1))
+
+// (not under contract here: NewMaxExpr$3 — first pass: 1 of 1 obligations not proved (safe.assert×1))
+
+// (not under contract here: NewMeanExpr — first pass: 1 of 5 obligations not proved (pre×1))
+
+//@ func NewMeanExpr$1(s)
+//@   tags C10
+//@   assigns fresh-only
+//@   fnparam * pure
+//@   requires s != nil
+
+// (not under contract here: NewMeanExpr$2 — first pass: 1 of 1 obligations not proved (safe.assert×1))
+
+// (not under contract here: NewMeanExpr$3 — first pass: 1 of 1 obligations not proved (safe.assert×1))
+
+// (not under contract here: NewMinExpr — first pass: 1 of 5 obligations not proved (pre×1))
+
+//@ func NewMinExpr$1(s)
+//@   tags C10
+//@   assigns fresh-only
+//@   fnparam * pure
+//@   requires s != nil
+
+// (not under contract here: NewMinExpr$2 — first pass: 1 of 2 obligations not proved (safe.assert×1))
+
+// (not under contract here: NewMinExpr$3 — first pass: 1 of 1 obligations not proved (safe.assert×1))
+
+//@ func (*ReduceExpr).String(e;)
+//@   tags C10
+//@   assigns fresh-only
+//@   fnparam * pure
+//@   requires e != nil
+//@   requires e.a != nil
+//@   requires e.f != nil
+//@   requires e.init != nil
+//@   requires e.reduce != nil
+//@   requires e.output != nil
+
+// (not under contract here: (*ReduceExpr).Eval — first pass: 12 of 27 obligations not proved (pre×2, safe.nilfn×2, safe.assert×1))
+
+// ---- rel/expr_tuple_project.go -------------------------------------------------------
+
+// no frame claimed: the function writes caller-visible state or the frame is beyond the thin contract (frame.HF.rel.TupleProjectExpr.0, frame.HF.rel.TupleProjectExpr.1)
+// no frame claimed: calls a repo function without contract (engine havocs all state; a frame proof would be vacuous)
+//@ func NewTupleProjectExpr(scanner, base, inverse, attrs)
+//@   tags C10
+//@   fnparam * pure
+//@   requires base != nil
+
+// no frame claimed: calls a repo function without contract (engine havocs all state; a frame proof would be vacuous)
+//@ func (*TupleProjectExpr).Eval(tp; ctx, local)
+//@   tags C10
+//@   fnparam * pure
+//@   requires tp != nil
+//@   requires tp.base != nil
+
+// no frame claimed: the function writes caller-visible state or the frame is beyond the thin contract (frame.G.sbout)
+// no frame claimed: calls a repo function without contract (engine havocs all state; a frame proof would be vacuous)
+//@ func (*TupleProjectExpr).String(tp;)
+//@   tags C10
+//@   fnparam * pure
+//@   requires tp != nil
+//@   requires tp.base != nil
+
+// ---- rel/expr_unary.go ---------------------------------------------------------------
+
+//@ func newUnaryExpr(scanner, a, op, format, eval)
+//@   tags C10
+//@   assigns fresh-only
+//@   fnparam * pure
+//@   requires a != nil
+//@   requires eval != nil
+
+//@ func NewPosExpr(scanner, a)
+//@   tags C10
+//@   assigns fresh-only
+//@   fnparam * pure
+//@   requires a != nil
+
+//@ func NewPosExpr$1(p0, a, p2)
+//@   tags C10
+//@   assigns fresh-only
+//@   fnparam * pure
+//@   requires a != nil
+
+//@ func NewNegExpr(scanner, a)
+//@   tags C10
+//@   assigns fresh-only
+//@   fnparam * pure
+//@   requires a != nil
+
+//@ func NewNegExpr$1(p0, a, p2)
+//@   tags C10
+//@   assigns fresh-only
+//@   fnparam * pure
+//@   requires a != nil
+
+//@ func NewPowerSetExpr(scanner, a)
+//@   tags C10
+//@   assigns fresh-only
+//@   fnparam * pure
+//@   requires a != nil
+
+// no frame claimed: calls a repo function without contract (engine havocs all state; a frame proof would be vacuous)
+//@ func NewPowerSetExpr$1(p0, a, p2)
+//@   tags C10
+//@   fnparam * pure
+//@   requires a != nil
+
+//@ func NewNotExpr(scanner, a)
+//@   tags C10
+//@   assigns fresh-only
+//@   fnparam * pure
+//@   requires a != nil
+
+//@ func NewNotExpr$1(p0, a, p2)
+//@   tags C10
+//@   assigns fresh-only
+//@   fnparam * pure
+//@   requires a != nil
+
+//@ func NewEvalExpr(scanner, a)
+//@   tags C10
+//@   assigns fresh-only
+//@   fnparam * pure
+//@   requires a != nil
+
+// no frame claimed: calls a repo function without contract (engine havocs all state; a frame proof would be vacuous)
+//@ func NewEvalExpr$1(ctx, a, local)
+//@   tags C10
+//@   fnparam * pure
+//@   requires a != nil
+
+//@ func NewCountExpr(scanner, a)
+//@   tags C10
+//@   assigns fresh-only
+//@   fnparam * pure
+//@   requires a != nil
+
+//@ func NewCountExpr$1(p0, a, local)
+//@   tags C10
+//@   assigns fresh-only
+//@   fnparam * pure
+//@   requires a != nil
+
+//@ func NewSingleExpr(scanner, a)
+//@   tags C10
+//@   assigns fresh-only
+//@   fnparam * pure
+//@   requires a != nil
+
+// (not under contract here: NewSingleExpr$1 — first pass: 29 of 34 obligations not proved (pre×1))
+
+//@ func (*UnaryExpr).String(e;)
+//@   tags C10
+//@   assigns fresh-only
+//@   fnparam * pure
+//@   requires e != nil
+//@   requires e.a != nil
+//@   requires e.eval != nil
+
+// no frame claimed: calls a repo function without contract (engine havocs all state; a frame proof would be vacuous)
+//@ func (*UnaryExpr).Eval(e; ctx, local)
+//@   tags C10
+//@   fnparam * pure
+//@   requires e != nil
+//@   requires e.a != nil
+//@   requires e.eval != nil
+
+// ---- rel/ops_tuple.go ----------------------------------------------------------------
+
+//@ func Combine(a, b, op)
+//@   tags C10
+//@   assigns fresh-only
+//@   fnparam * pure
+//@   requires a != nil
+//@   requires b != nil
+
+// no frame claimed: the function writes caller-visible state or the frame is beyond the thin contract (frame.HF.frozen.SetBuilder_string_.0, frame.HF.frozen.SetBuilder_string_.1)
+//@ func CombineNames(a, b, op)
+//@   tags C10
+//@   fnparam * pure
+//@   requires a != nil
+//@   requires b != nil
+
+//@ func Merge(a, b)
+//@   tags C10
+//@   fnparam * pure
+//@   requires a != nil
+//@   requires b != nil
+
+//@ func MergeLeftToRight(t, ts)
+//@   tags C10
+//@   fnparam * pure
+//@   requires t != nil
+//@   requires elems: forall i in 0..len(ts) :: ts[i] != nil
+//@   loop 0 invariant tnn: t != nil
+//@   loop 1 invariant tnn1: t != nil
+//@   ensures result != nil
+
+// ---- rel/value_set_closure.go --------------------------------------------------------
+
+// (owned by w-c09: func NewClosure(scope, f))
+
+//@ func (Closure).Hash(c; seed)
+//@   tags C10
+//@   assigns fresh-only
+//@   fnparam * pure
+//@   requires c.f != nil
+//@   requires okClosure(c)
+
+//@ func (Closure).Equal(c; i)
+//@   tags C10
+//@   assigns fresh-only
+//@   fnparam * pure
+//@   requires c.f != nil
+//@   requires i != nil
+//@   requires okClosure(c)
+//@   requires i is Closure ==> okClosure(i.(Closure))
+
+//@ func (Closure).EqualClosure(c; d)
+//@   tags C10
+//@   assigns fresh-only
+//@   fnparam * pure
+//@   requires c.f != nil
+//@   requires okClosure(c) && okClosure(d)
+
+//@ func (Closure).String(c;)
+//@   tags C10
+//@   assigns fresh-only
+//@   fnparam * pure
+//@   requires c.f != nil
+//@   requires okClosure(c)
+
+// no frame claimed: calls a repo function without contract (engine havocs all state; a frame proof would be vacuous)
+//@ func (Closure).Format(c; f, verb)
+//@   tags C10
+//@   fnparam * pure
+//@   requires c.f != nil
+//@   requires okClosure(c)
+
+//@ func (Closure).Eval(c; ctx, local)
+//@   tags C10
+//@   assigns fresh-only
+//@   fnparam * pure
+//@   requires c.f != nil
+
+//@ func (Closure).Source(c;)
+//@   tags C10
+//@   assigns fresh-only
+//@   fnparam * pure
+//@   requires c.f != nil
+// (covered elsewhere: (rel.Closure).Kind in verif_contracts_c06.go)
+
+//@ func (Closure).IsTrue(c;)
+//@   tags C10
+//@   assigns fresh-only
+//@   fnparam * pure
+//@   requires c.f != nil
+
+//@ func (Closure).Less(c; d)
+//@   tags C10
+//@   assigns fresh-only
+//@   fnparam * pure
+//@   requires c.f != nil
+//@   requires d != nil
+//@   requires okClosure(c) && d != nil
+
+//@ func (Closure).Negate(c;)
+//@   tags C10
+//@   assigns fresh-only
+//@   fnparam * pure
+//@   requires c.f != nil
+//@   modifies HS|rel.Attr
+
+// (not under contract here: (Closure).Export — first pass: 2 of 18 obligations not proved (safe.nil×1, safe.panic×1))
+
+// (not under contract here: (Closure).Export$1 — first pass: 1 of 1 obligations not proved (safe.panic×1))
+
+// no frame claimed: calls a repo function without contract (engine havocs all state; a frame proof would be vacuous)
+//@ func (Closure).getSetBuilder(arg0;)
+//@   tags C10
+//@   fnparam * pure
+//@   requires arg0.f != nil
+
+//@ func (Closure).getBucket(arg0;)
+//@   tags C10
+//@   assigns fresh-only
+//@   fnparam * pure
+//@   requires arg0.f != nil
+
+// FINDING (C10): the set methods of a closure are `panic("unimplemented")`: `(\x x) count`, `(\x x) with 1`, ...
+//@ func (Closure).Count(c;)
+//@   tags C10
+//@   assigns fresh-only
+//@   fnparam * pure
+//@   requires c.f != nil
+
+//@ func (Closure).Has(c; v)
+//@   tags C10
+//@   assigns fresh-only
+//@   fnparam * pure
+//@   requires c.f != nil
+//@   requires v != nil
+
+//@ func (Closure).Enumerator(c;)
+//@   tags C10
+//@   assigns fresh-only
+//@   fnparam * pure
+//@   requires c.f != nil
+
+//@ func (Closure).With(c; v)
+//@   tags C10
+//@   assigns fresh-only
+//@   fnparam * pure
+//@   requires c.f != nil
+//@   requires v != nil
+
+//@ func (Closure).Without(c; v)
+//@   tags C10
+//@   assigns fresh-only
+//@   fnparam * pure
+//@   requires c.f != nil
+//@   requires v != nil
+
+//@ func (Closure).Map(c; f)
+//@   tags C10
+//@   assigns fresh-only
+//@   fnparam * pure
+//@   requires c.f != nil
+//@   requires f != nil
+
+//@ func (Closure).Where(c; p)
+//@   tags C10
+//@   assigns fresh-only
+//@   fnparam * pure
+//@   requires c.f != nil
+//@   requires p != nil
+
+// (owned by w-c09: func (Closure).CallAll(c; ctx, arg, b))
+
+//@ func (Closure).unionSetSubsetBucket(arg0;)
+//@   tags C10
+//@   assigns fresh-only
+//@   fnparam * pure
+//@   requires arg0.f != nil
+
+//@ func (Closure).ArrayEnumerator(c;)
+//@   tags C10
+//@   assigns fresh-only
+//@   fnparam * pure
+//@   requires c.f != nil
+
+// ---- rel/value_set_dict.go -----------------------------------------------------------
+
+// no frame claimed: the function writes caller-visible state or the frame is beyond the thin contract (frame.HS.rel.Value.0@r0, frame.HS.rel.Value.0@r1)
+//@ func newMultipleValues(values)
+//@   tags C10
+//@   fnparam * pure
+
+//@ func (multipleValues).Equal(m; n)
+//@   tags C10
+//@   assigns fresh-only
+//@   fnparam * pure
+
+//@ func (multipleValues).Hash(m; seed)
+//@   tags C10
+//@   assigns fresh-only
+//@   fnparam * pure
+
+//@ func (multipleValues).String(m;)
+//@   tags C10
+//@   assigns fresh-only
+//@   fnparam * pure
+// (covered elsewhere: rel.AsDict in verif_contracts_c19.go)
+
+// (not under contract here: MustNewDict — first pass: 1 of 1 obligations not proved (safe.panic×1))
+
+// (not under contract here: NewDict — first pass: 21 of 33 obligations not proved (safe.assert×1))
+
+// (not under contract here: (Dict).Hash — first pass: 18 of 19 obligations not proved (safe.nil×3, pre×1))
+
+// (not under contract here: (Dict).Equal — first pass: 38 of 44 obligations not proved (pre×1, safe.nilfn×1, safe.nil×1))
+
+//@ func equalDictValue(a, b)
+//@   tags C10
+//@   assigns fresh-only
+//@   fnparam * pure
+
+// (not under contract here: (Dict).equalDict — first pass: 10 of 15 obligations not proved (safe.nil×1))
+
+// no frame claimed: calls a repo function without contract (engine havocs all state; a frame proof would be vacuous)
+//@ func (Dict).String(d;)
+//@   tags C10
+//@   fnparam * pure
+
+// no frame claimed: the function writes caller-visible state or the frame is beyond the thin contract (frame.G.wout)
+//@ func (Dict).Format(d; f, verb)
+//@   tags C10
+//@   fnparam * pure
+// (covered elsewhere: (rel.Dict).OrderedEntries in verif_contracts_c19.go)
+
+//@ func (Dict).Eval(d; ctx, local)
+//@   tags C10
+//@   assigns fresh-only
+//@   fnparam * pure
+
+//@ func (Dict).Source(d;)
+//@   tags C10
+//@   assigns fresh-only
+//@   fnparam * pure
+// (covered elsewhere: (rel.Dict).Kind in verif_contracts_c06.go)
+
+//@ func (Dict).IsTrue(d;)
+//@   tags C10
+//@   assigns fresh-only
+//@   fnparam * pure
+
+// (not under contract here: (Dict).Less — first pass: 7 of 22 obligations not proved (safe.nil×4, safe.panic×2, safe.assert×1))
+
+// no frame claimed: the function writes caller-visible state or the frame is beyond the thin contract (frame.HS.rel.Attr.0, frame.HS.rel.Attr.1)
+//@ func (Dict).Negate(d;)
+//@   tags C10
+//@   fnparam * pure
+
+// (not under contract here: (Dict).Export — first pass: 15 of 24 obligations not proved (safe.nil×1))
+
+// no frame claimed: calls a repo function without contract (engine havocs all state; a frame proof would be vacuous)
+//@ func (Dict).getSetBuilder(arg0;)
+//@   tags C10
+//@   fnparam * pure
+
+//@ func (Dict).getBucket(arg0;)
+//@   tags C10
+//@   assigns fresh-only
+//@   fnparam * pure
+
+//@ func (Dict).Count(d;)
+//@   tags C10
+//@   assigns fresh-only
+//@   fnparam * pure
+
+// (not under contract here: (Dict).Has — first pass: 2 of 2 obligations not proved (safe.nilfn×1, safe.nil×1))
+
+//@ func (Dict).Enumerator(d;)
+//@   tags C10
+//@   assigns fresh-only
+//@   fnparam * pure
+
+// (not under contract here: (Dict).With — first pass: 1 of 3 obligations not proved (safe.assert×1))
+
+// (not under contract here: (Dict).Without — first pass: 2 of 2 obligations not proved (safe.nilfn×1, safe.nil×1))
+
+// (not under contract here: (Dict).Map — first pass: 26 of 33 obligations not proved (safe.nil×2, pre×1))
+
+// (not under contract here: (Dict).Where — first pass: 51 of 65 obligations not proved (safe.nil×2, pre×1, safe.assert×1))
+
+// (not under contract here: (Dict).CallAll — first pass: 3 of 7 obligations not proved (safe.nil×2))
+
+// (not under contract here: (Dict).unionSetSubsetBucket — first pass: 1 of 3 obligations not proved (pre×1))
+
+// (not under contract here: (emptyEnumerator).Current — first pass: 1 of 1 obligations not proved (safe.panic×1))
+
+//@ func (emptyEnumerator).MoveNext(arg0;)
+//@   tags C10
+//@   assigns fresh-only
+//@   fnparam * pure
+
+//@ func (Dict).ArrayEnumerator(d;)
+//@   tags C10
+//@   assigns fresh-only
+//@   fnparam * pure
+// (covered elsewhere: (rel.Dict).DictEnumerator in verif_contracts_c19.go)
+
+// no frame claimed: the function writes caller-visible state or the frame is beyond the thin contract (frame.HF.rel.TupleMatcher.0, frame.HF.rel.TupleMatcher.1)
+// no frame claimed: calls a repo function without contract (engine havocs all state; a frame proof would be vacuous)
+//@ func DictTupleMatcher()
+//@   tags C10
+//@   fnparam * pure
+
+// no frame claimed: the function writes caller-visible state or the frame is beyond the thin contract (frame.captured.key)
+//@ func DictTupleMatcher$1(k)
+//@   tags C10
+//@   fnparam * pure
+//@   requires k != nil
+
+// no frame claimed: the function writes caller-visible state or the frame is beyond the thin contract (frame.captured.value)
+//@ func DictTupleMatcher$2(v)
+//@   tags C10
+//@   fnparam * pure
+//@   requires v != nil
+
+// no frame claimed: calls a repo function without contract (engine havocs all state; a frame proof would be vacuous)
+//@ func DictTupleMatcher$3(v)
+//@   tags C10
+//@   fnparam * pure
+//@   requires v != nil
+
+// (not under contract here: (*dictEnumerator).MoveNext — first pass: 7 of 26 obligations not proved (safe.nil×3, pre×3, safe.assert×1))
+
+//@ func (*dictEnumerator).Current(a;)
+//@   tags C10
+//@   assigns fresh-only
+//@   fnparam * pure
+//@   requires a != nil
+// (covered elsewhere: (*rel.DictEnumerator).MoveNext in verif_contracts_c19.go)
+// (covered elsewhere: (*rel.DictEnumerator).Current in verif_contracts_c19.go)
+
+//@ func (dictEntryTupleSort).Len(s;)
+//@   tags C10
+//@   assigns fresh-only
+//@   fnparam * pure
+// (covered elsewhere: (rel.dictEntryTupleSort).Less in verif_contracts_c06.go)
+
+// (not under contract here: (dictEntryTupleSort).Swap — first pass: 6 of 6 obligations not proved (safe.index×4))
+
+// ---- rel/value_set_eclosure.go -------------------------------------------------------
+
+//@ func NewExprClosure(scope, e)
+//@   tags C10
+//@   assigns fresh-only
+//@   fnparam * pure
+//@   requires e != nil
+
+// (not under contract here: (ExprClosure).Hash — unconditional panic("not implemented"); ExprClosure values exist only in the parser's macro scopes (syntax/parse.go), no arr.ai program reaches its set methods)
+
+// (not under contract here: (ExprClosure).Equal — calls EqualExprClosure which panics unconditionally)
+
+// (not under contract here: (ExprClosure).EqualExprClosure — unconditional panic (see ExprClosure.Hash))
+
+// no frame claimed: calls a repo function without contract (engine havocs all state; a frame proof would be vacuous)
+//@ func (ExprClosure).String(c;)
+//@   tags C10
+//@   fnparam * pure
+//@   requires c.e != nil
+//@   requires c.e != nil
+
+// no frame claimed: the function writes caller-visible state or the frame is beyond the thin contract (frame.G.wout)
+// no frame claimed: calls a repo function without contract (engine havocs all state; a frame proof would be vacuous)
+//@ func (ExprClosure).Format(c; f, verb)
+//@   tags C10
+//@   fnparam * pure
+//@   requires c.e != nil
+//@   requires c.e != nil
+
+//@ func (ExprClosure).Eval(c; ctx, p2)
+//@   tags C10
+//@   assigns fresh-only
+//@   fnparam * pure
+//@   requires c.e != nil
+//@   requires c.e != nil
+
+//@ func (ExprClosure).Source(c;)
+//@   tags C10
+//@   assigns fresh-only
+//@   fnparam * pure
+//@   requires c.e != nil
+// (covered elsewhere: (rel.ExprClosure).Kind in verif_contracts_c06.go)
+
+//@ func (ExprClosure).IsTrue(c;)
+//@   tags C10
+//@   assigns fresh-only
+//@   fnparam * pure
+//@   requires c.e != nil
+
+//@ func (ExprClosure).Less(c; d)
+//@   tags C10
+//@   assigns fresh-only
+//@   fnparam * pure
+//@   requires c.e != nil
+//@   requires d != nil
+//@   requires c.e != nil && d != nil
+
+//@ func (ExprClosure).Negate(c;)
+//@   tags C10
+//@   assigns fresh-only
+//@   fnparam * pure
+//@   requires c.e != nil
+//@   modifies HS|rel.Attr
+
+//@ func (ExprClosure).Export(c; ctx)
+//@   tags C10
+//@   assigns fresh-only
+//@   fnparam * pure
+//@   requires c.e != nil
+//@   requires c.e != nil
+
+// (not under contract here: (ExprClosure).Export$1 — first pass: 1 of 1 obligations not proved (safe.panic×1))
+
+// no frame claimed: calls a repo function without contract (engine havocs all state; a frame proof would be vacuous)
+//@ func (ExprClosure).getSetBuilder(arg0;)
+//@   tags C10
+//@   fnparam * pure
+//@   requires arg0.e != nil
+
+//@ func (ExprClosure).getBucket(arg0;)
+//@   tags C10
+//@   assigns fresh-only
+//@   fnparam * pure
+//@   requires arg0.e != nil
+
+//@ func (ExprClosure).Count(arg0;)
+//@   tags C10
+//@   assigns fresh-only
+//@   fnparam * pure
+//@   requires arg0.e != nil
+
+// (not under contract here: (ExprClosure).Has — unconditional panic (see ExprClosure.Hash))
+
+// (not under contract here: (ExprClosure).Enumerator — unconditional panic (see ExprClosure.Hash))
+
+// (not under contract here: (ExprClosure).With — unconditional panic (see ExprClosure.Hash))
+
+// (not under contract here: (ExprClosure).Without — unconditional panic (see ExprClosure.Hash))
+
+// (not under contract here: (ExprClosure).Map — unconditional panic (see ExprClosure.Hash))
+
+// (not under contract here: (ExprClosure).Where — unconditional panic (see ExprClosure.Hash))
+
+// (not under contract here: (ExprClosure).CallAll — unconditional panic (see ExprClosure.Hash))
+
+//@ func (ExprClosure).unionSetSubsetBucket(arg0;)
+//@   tags C10
+//@   assigns fresh-only
+//@   fnparam * pure
+//@   requires arg0.e != nil
+
+// (not under contract here: (ExprClosure).ArrayEnumerator — unconditional panic (see ExprClosure.Hash))
+
+// ---- rel/value_set_empty.go ----------------------------------------------------------
+// (covered elsewhere: (rel.EmptySet).Kind in verif_contracts_c06.go)
+// (covered elsewhere: (rel.EmptySet).IsTrue in verif_contracts_c19.go)
+// (covered elsewhere: (rel.EmptySet).Less in verif_contracts_c06.go)
+
+//@ func (EmptySet).Negate(e;)
+//@   tags C10
+//@   assigns fresh-only
+//@   fnparam * pure
+//@   modifies HS|rel.Attr
+
+//@ func (EmptySet).Export(e; arg1)
+//@   tags C10
+//@   assigns fresh-only
+//@   fnparam * pure
+
+// no frame claimed: calls a repo function without contract (engine havocs all state; a frame proof would be vacuous)
+//@ func (EmptySet).getSetBuilder(arg0;)
+//@   tags C10
+//@   fnparam * pure
+
+//@ func (EmptySet).getBucket(arg0;)
+//@   tags C10
+//@   assigns fresh-only
+//@   fnparam * pure
+
+//@ func (EmptySet).Equal(e; i)
+//@   tags C10
+//@   assigns fresh-only
+//@   fnparam * pure
+//@   requires i != nil
+//@   requires i != nil
+
+//@ func (EmptySet).Hash(e; seed)
+//@   tags C10
+//@   assigns fresh-only
+//@   fnparam * pure
+
+//@ func (EmptySet).Eval(e; ctx, local)
+//@   tags C10
+//@   assigns fresh-only
+//@   fnparam * pure
+
+//@ func (EmptySet).Source(e;)
+//@   tags C10
+//@   assigns fresh-only
+//@   fnparam * pure
+
+//@ func (EmptySet).String(e;)
+//@   tags C10
+//@   assigns fresh-only
+//@   fnparam * pure
+
+// no frame claimed: calls a repo function without contract (engine havocs all state; a frame proof would be vacuous)
+//@ func (EmptySet).Format(e; f, verb)
+//@   tags C10
+//@   fnparam * pure
+
+//@ func (EmptySet).Count(e;)
+//@   tags C10
+//@   assigns fresh-only
+//@   fnparam * pure
+
+//@ func (EmptySet).Has(e; arg1)
+//@   tags C10
+//@   assigns fresh-only
+//@   fnparam * pure
+//@   requires arg1 != nil
+
+// (not under contract here: (emptyEnumerator).Offset — unconditional panic("wtf"); no caller in the repository (ValueEnumerator has no Offset method))
+
+//@ func (EmptySet).Enumerator(e;)
+//@   tags C10
+//@   assigns fresh-only
+//@   fnparam * pure
+
+//@ func (EmptySet).ArrayEnumerator(e;)
+//@   tags C10
+//@   assigns fresh-only
+//@   fnparam * pure
+
+// no frame claimed: calls a repo function without contract (engine havocs all state; a frame proof would be vacuous)
+//@ func (EmptySet).With(e; v)
+//@   tags C10
+//@   fnparam * pure
+//@   requires v != nil
+//@   requires v != nil
+
+//@ func (EmptySet).Without(e; arg1)
+//@   tags C10
+//@   assigns fresh-only
+//@   fnparam * pure
+//@   requires arg1 != nil
+
+//@ func (EmptySet).Map(e; arg1)
+//@   tags C10
+//@   assigns fresh-only
+//@   fnparam * pure
+//@   requires arg1 != nil
+
+//@ func (EmptySet).Where(e; arg1)
+//@   tags C10
+//@   assigns fresh-only
+//@   fnparam * pure
+//@   requires arg1 != nil
+
+//@ func (EmptySet).CallAll(e; arg1, arg2, arg3)
+//@   tags C10
+//@   assigns fresh-only
+//@   fnparam * pure
+//@   requires arg2 != nil
+
+//@ func (EmptySet).unionSetSubsetBucket(arg0;)
+//@   tags C10
+//@   assigns fresh-only
+//@   fnparam * pure
+
+// ---- rel/value_set_func.go -----------------------------------------------------------
+
+// (owned by w-c09: func NewFunction(scanner, arg, body))
+
+// (owned by w-c09: func ExprAsFunction(expr))
+
+//@ func (*Function).Arg(f;)
+//@   tags C10
+//@   assigns fresh-only
+//@   fnparam * pure
+//@   requires f != nil
+//@   requires f.arg != nil
+//@   requires f.body != nil
+//@   requires okFunc(f)
+
+//@ func (*Function).Body(f;)
+//@   tags C10
+//@   assigns fresh-only
+//@   fnparam * pure
+//@   requires f != nil
+//@   requires f.arg != nil
+//@   requires f.body != nil
+//@   requires f != nil
+
+//@ func (*Function).Hash(f; seed)
+//@   tags C10
+//@   assigns fresh-only
+//@   fnparam * pure
+//@   requires f != nil
+//@   requires f.arg != nil
+//@   requires f.body != nil
+//@   requires okFunc(f)
+
+//@ func (*Function).Equal(f; i)
+//@   tags C10
+//@   assigns fresh-only
+//@   fnparam * pure
+//@   requires f != nil
+//@   requires f.arg != nil
+//@   requires f.body != nil
+//@   requires okFunc(f)
+//@   requires i is *Function ==> i.(*Function) != nil
+
+//@ func (*Function).EqualFunction(f; g)
+//@   tags C10
+//@   assigns fresh-only
+//@   fnparam * pure
+//@   requires f != nil
+//@   requires f.arg != nil
+//@   requires f.body != nil
+//@   requires g != nil
+//@   requires f != nil && g != nil
+
+// no frame claimed: calls a repo function without contract (engine havocs all state; a frame proof would be vacuous)
+//@ func (*Function).String(f;)
+//@   tags C10
+//@   fnparam * pure
+//@   requires f != nil
+//@   requires f.arg != nil
+//@   requires f.body != nil
+//@   requires okFunc(f)
+
+// no frame claimed: the function writes caller-visible state or the frame is beyond the thin contract (frame.G.wout)
+//@ func (*Function).Format(f; s, verb)
+//@   tags C10
+//@   fnparam * pure
+//@   requires f != nil
+//@   requires f.arg != nil
+//@   requires f.body != nil
+//@   requires okFunc(f)
+
+// (owned by w-c09: func (*Function).Eval(f; ctx, local))
+
+// ---- rel/value_set_generic.go --------------------------------------------------------
+
+// (not under contract here: CanonicalSet — first pass: 19 of 24 obligations not proved (safe.nil×2, pre×1, safe.panic×1))
+// (covered elsewhere: rel.newGenericSetFromSet in verif_contracts.go)
+
+//@ func newSetFromFrozenSet(s)
+//@   tags C10
+//@   assigns fresh-only
+//@   fnparam * pure
+// (covered elsewhere: rel.NewBool in verif_contracts_c14.go)
+
+// (not under contract here: (GenericSet).Hash — first pass: 18 of 19 obligations not proved (safe.nil×3, pre×1))
+
+//@ func (GenericSet).Equal(s; v)
+//@   tags C10
+//@   assigns fresh-only
+//@   fnparam * pure
+//@   requires v != nil
+
+// no frame claimed: calls a repo function without contract (engine havocs all state; a frame proof would be vacuous)
+//@ func (GenericSet).String(s;)
+//@   tags C10
+//@   fnparam * pure
+
+// (not under contract here: (GenericSet).Format — first pass: 12 of 14 obligations not proved (safe.nil×2, pre×1))
+
+//@ func (GenericSet).Eval(s; ctx, local)
+//@   tags C10
+//@   assigns fresh-only
+//@   fnparam * pure
+
+//@ func (GenericSet).Source(s;)
+//@   tags C10
+//@   assigns fresh-only
+//@   fnparam * pure
+// (covered elsewhere: (rel.GenericSet).Kind in verif_contracts_c06.go)
+
+//@ func (GenericSet).IsTrue(s;)
+//@   tags C10
+//@   assigns fresh-only
+//@   fnparam * pure
+
+// (not under contract here: (GenericSet).Less — first pass: 47 of 50 obligations not proved (safe.nil×7, pre×4, safe.assert×1))
+
+// no frame claimed: the function writes caller-visible state or the frame is beyond the thin contract (frame.HS.rel.Attr.0@r1, frame.HS.rel.Attr.1@r1)
+//@ func (GenericSet).Negate(s;)
+//@   tags C10
+//@   fnparam * pure
+
+// (not under contract here: (GenericSet).Export — first pass: 13 of 16 obligations not proved (safe.nil×3, safe.make×1, pre×1))
+
+// no frame claimed: calls a repo function without contract (engine havocs all state; a frame proof would be vacuous)
+//@ func (GenericSet).getSetBuilder(arg0;)
+//@   tags C10
+//@   fnparam * pure
+
+//@ func (GenericSet).getBucket(arg0;)
+//@   tags C10
+//@   assigns fresh-only
+//@   fnparam * pure
+// (covered elsewhere: (rel.GenericSet).Count in verif_contracts_c19.go)
+// (covered elsewhere: (rel.GenericSet).Has in verif_contracts_c19.go)
+
+// no frame claimed: calls a repo function without contract (engine havocs all state; a frame proof would be vacuous)
+//@ func (GenericSet).With(s; v)
+//@   tags C10
+//@   fnparam * pure
+//@   requires v != nil
+
+//@ func (GenericSet).Without(s; value)
+//@   tags C10
+//@   assigns fresh-only
+//@   fnparam * pure
+//@   requires value != nil
+
+// (not under contract here: (GenericSet).Map — first pass: 26 of 33 obligations not proved (safe.nil×2, pre×1))
+
+//@ func (GenericSet).Where(s; p)
+//@   tags C10
+//@   assigns fresh-only
+//@   fnparam * pure
+//@   requires p != nil
+// (covered elsewhere: (rel.GenericSet).Where$1 in verif_contracts_c11.go)
+
+//@ func (GenericSet).CallAll(s; p1, arg, b)
+//@   tags C10
+//@   assigns fresh-only
+//@   fnparam * pure
+//@   requires arg != nil
+
+//@ func (GenericSet).unionSetSubsetBucket(arg0;)
+//@   tags C10
+//@   assigns fresh-only
+//@   fnparam * pure
+
+//@ func (GenericSet).Enumerator(s;)
+//@   tags C10
+//@   assigns fresh-only
+//@   fnparam * pure
+
+// (not under contract here: (GenericSet).Any — first pass: 11 of 12 obligations not proved (safe.nil×2, pre×1, safe.panic×1))
+
+// (not under contract here: (*genericSetValueEnumerator).Current — first pass: 4 of 7 obligations not proved (safe.nil×3, safe.assert×1))
+
+//@ func (GenericSet).ArrayEnumerator(s;)
+//@   tags C10
+//@   assigns fresh-only
+//@   fnparam * pure
+
+// (not under contract here: (GenericSet).ArrayEnumerator$1 — first pass: 4 of 6 obligations not proved (safe.assert×4))
+
+// (not under contract here: (*genericSetEnumerator).MoveNext — first pass: 1 of 3 obligations not proved (safe.nil×1))
+
+// (not under contract here: (*genericSetEnumerator).Current — first pass: 1 of 3 obligations not proved (safe.nil×1))
+
+//@ func (ValueList).Len(vl;)
+//@   tags C10
+//@   assigns fresh-only
+//@   fnparam * pure
+// (covered elsewhere: (rel.ValueList).Less in verif_contracts_c06.go)
+
+// (not under contract here: (ValueList).Swap — first pass: 5 of 5 obligations not proved (safe.index×4))
+
+// no frame claimed: calls a repo function without contract (engine havocs all state; a frame proof would be vacuous)
+//@ func (GenericSet).OrderedValues(s;)
+//@   tags C10
+//@   fnparam * pure
+
+// ---- rel/value_set_native_func.go ----------------------------------------------------
+// (covered elsewhere: rel.NewNativeFunction in verif_contracts_c17.go)
+
+//@ func NewNativeLambda(fn)
+//@   tags C10
+//@   assigns fresh-only
+//@   fnparam * pure
+//@   requires fn != nil
+
+//@ func NewNativeFunctionAttr(name, fn)
+//@   tags C10
+//@   assigns fresh-only
+//@   fnparam * pure
+//@   requires fn != nil
+
+//@ func (*NativeFunction).Name(f;)
+//@   tags C10
+//@   assigns fresh-only
+//@   fnparam * pure
+//@   requires f != nil
+//@   requires f.fn != nil
+//@   requires f != nil
+
+//@ func (*NativeFunction).Hash(f; seed)
+//@   tags C10
+//@   assigns fresh-only
+//@   fnparam * pure
+//@   requires f != nil
+//@   requires f.fn != nil
+//@   requires f != nil
+
+//@ func (*NativeFunction).Equal(f; i)
+//@   tags C10
+//@   assigns fresh-only
+//@   fnparam * pure
+//@   requires f != nil
+//@   requires f.fn != nil
+//@   requires i != nil
+
+// no frame claimed: calls a repo function without contract (engine havocs all state; a frame proof would be vacuous)
+//@ func (*NativeFunction).String(f;)
+//@   tags C10
+//@   fnparam * pure
+//@   requires f != nil
+//@   requires f.fn != nil
+//@   requires f != nil
+
+// no frame claimed: the function writes caller-visible state or the frame is beyond the thin contract (frame.G.wout)
+//@ func (*NativeFunction).Format(f; s, verb)
+//@   tags C10
+//@   fnparam * pure
+//@   requires f != nil
+//@   requires f.fn != nil
+//@   requires f != nil
+
+//@ func (*NativeFunction).Eval(f; ctx, local)
+//@   tags C10
+//@   assigns fresh-only
+//@   fnparam * pure
+//@   requires f != nil
+//@   requires f.fn != nil
+
+//@ func (*NativeFunction).Source(f;)
+//@   tags C10
+//@   assigns fresh-only
+//@   fnparam * pure
+//@   requires f != nil
+//@   requires f.fn != nil
+// (covered elsewhere: (*rel.NativeFunction).Kind in verif_contracts_c06.go)
+
+//@ func (*NativeFunction).IsTrue(f;)
+//@   tags C10
+//@   assigns fresh-only
+//@   fnparam * pure
+//@   requires f != nil
+//@   requires f.fn != nil
+
+//@ func (*NativeFunction).Less(f; g)
+//@   tags C10
+//@   assigns fresh-only
+//@   fnparam * pure
+//@   requires f != nil
+//@   requires f.fn != nil
+//@   requires g != nil
+//@   requires f != nil && g != nil
+
+// no frame claimed: the function writes caller-visible state or the frame is beyond the thin contract (frame.HS.rel.Attr.0, frame.HS.rel.Attr.1)
+//@ func (*NativeFunction).Negate(f;)
+//@   tags C10
+//@   fnparam * pure
+//@   requires f != nil
+//@   requires f.fn != nil
+//@   requires f != nil
+
+//@ func (*NativeFunction).Export(f; p1)
+//@   tags C10
+//@   assigns fresh-only
+//@   fnparam * pure
+//@   requires f != nil
+//@   requires f.fn != nil
+//@   requires f != nil
+
+// no frame claimed: calls a repo function without contract (engine havocs all state; a frame proof would be vacuous)
+//@ func (*NativeFunction).getSetBuilder(arg0;)
+//@   tags C10
+//@   fnparam * pure
+//@   requires arg0 != nil
+//@   requires arg0.fn != nil
+
+//@ func (*NativeFunction).getBucket(arg0;)
+//@   tags C10
+//@   assigns fresh-only
+//@   fnparam * pure
+//@   requires arg0 != nil
+//@   requires arg0.fn != nil
+
+//@ func (*NativeFunction).Count(arg0;)
+//@   tags C10
+//@   assigns fresh-only
+//@   fnparam * pure
+//@   requires arg0 != nil
+//@   requires arg0.fn != nil
+
+//@ func (*NativeFunction).Has(arg0; arg1)
+//@   tags C10
+//@   assigns fresh-only
+//@   fnparam * pure
+//@   requires arg0 != nil
+//@   requires arg0.fn != nil
+//@   requires arg1 != nil
+
+//@ func (*NativeFunction).Enumerator(arg0;)
+//@   tags C10
+//@   assigns fresh-only
+//@   fnparam * pure
+//@   requires arg0 != nil
+//@   requires arg0.fn != nil
+
+//@ func (*NativeFunction).With(arg0; arg1)
+//@   tags C10
+//@   assigns fresh-only
+//@   fnparam * pure
+//@   requires arg0 != nil
+//@   requires arg0.fn != nil
+//@   requires arg1 != nil
+
+//@ func (*NativeFunction).Without(arg0; arg1)
+//@   tags C10
+//@   assigns fresh-only
+//@   fnparam * pure
+//@   requires arg0 != nil
+//@   requires arg0.fn != nil
+//@   requires arg1 != nil
+
+//@ func (*NativeFunction).Map(arg0; arg1)
+//@   tags C10
+//@   assigns fresh-only
+//@   fnparam * pure
+//@   requires arg0 != nil
+//@   requires arg0.fn != nil
+//@   requires arg1 != nil
+
+//@ func (*NativeFunction).Where(arg0; p)
+//@   tags C10
+//@   assigns fresh-only
+//@   fnparam * pure
+//@   requires arg0 != nil
+//@   requires arg0.fn != nil
+//@   requires p != nil
+
+//@ func (*NativeFunction).CallAll(f; ctx, arg, b)
+//@   tags C10
+//@   assigns fresh-only
+//@   fnparam * pure
+//@   requires f != nil
+//@   requires f.fn != nil
+//@   requires arg != nil
+//@   requires okNative(f)
+//@   modifies added
+
+//@ func (*NativeFunction).unionSetSubsetBucket(arg0;)
+//@   tags C10
+//@   assigns fresh-only
+//@   fnparam * pure
+//@   requires arg0 != nil
+//@   requires arg0.fn != nil
+
+//@ func (*NativeFunction).ArrayEnumerator(arg0;)
+//@   tags C10
+//@   assigns fresh-only
+//@   fnparam * pure
+//@   requires arg0 != nil
+//@   requires arg0.fn != nil
+
+// ---- rel/value_set_true.go -----------------------------------------------------------
+// (covered elsewhere: (rel.TrueSet).Kind in verif_contracts_c06.go)
+// (covered elsewhere: (rel.TrueSet).IsTrue in verif_contracts_c19.go)
+// (covered elsewhere: (rel.TrueSet).Less in verif_contracts_c06.go)
+
+//@ func (TrueSet).Negate(t;)
+//@   tags C10
+//@   assigns fresh-only
+//@   fnparam * pure
+//@   modifies HS|rel.Attr
+
+//@ func (TrueSet).Export(arg0; arg1)
+//@   tags C10
+//@   assigns fresh-only
+//@   fnparam * pure
+
+// no frame claimed: calls a repo function without contract (engine havocs all state; a frame proof would be vacuous)
+//@ func (TrueSet).getSetBuilder(arg0;)
+//@   tags C10
+//@   fnparam * pure
+
+//@ func (TrueSet).getBucket(arg0;)
+//@   tags C10
+//@   assigns fresh-only
+//@   fnparam * pure
+
+//@ func (TrueSet).Equal(arg0; i)
+//@   tags C10
+//@   assigns fresh-only
+//@   fnparam * pure
+//@   requires i != nil
+
+//@ func (TrueSet).Hash(arg0; seed)
+//@   tags C10
+//@   assigns fresh-only
+//@   fnparam * pure
+
+//@ func (TrueSet).Eval(t; ctx, local)
+//@   tags C10
+//@   assigns fresh-only
+//@   fnparam * pure
+
+//@ func (TrueSet).Source(arg0;)
+//@   tags C10
+//@   assigns fresh-only
+//@   fnparam * pure
+
+//@ func (TrueSet).String(arg0;)
+//@   tags C10
+//@   assigns fresh-only
+//@   fnparam * pure
+
+// no frame claimed: calls a repo function without contract (engine havocs all state; a frame proof would be vacuous)
+//@ func (TrueSet).Format(arg0; f, verb)
+//@   tags C10
+//@   fnparam * pure
+
+//@ func (TrueSet).Count(arg0;)
+//@   tags C10
+//@   assigns fresh-only
+//@   fnparam * pure
+
+//@ func (TrueSet).Has(arg0; v)
+//@   tags C10
+//@   assigns fresh-only
+//@   fnparam * pure
+//@   requires v != nil
+
+//@ func (TrueSet).Enumerator(arg0;)
+//@   tags C10
+//@   assigns fresh-only
+//@   fnparam * pure
+
+//@ func (TrueSet).ArrayEnumerator(t;)
+//@   tags C10
+//@   assigns fresh-only
+//@   fnparam * pure
+
+// no frame claimed: calls a repo function without contract (engine havocs all state; a frame proof would be vacuous)
+//@ func (TrueSet).With(t; v)
+//@   tags C10
+//@   fnparam * pure
+//@   requires v != nil
+
+//@ func (TrueSet).Without(t; v)
+//@   tags C10
+//@   assigns fresh-only
+//@   fnparam * pure
+//@   requires v != nil
+
+// no frame claimed: calls a repo function without contract (engine havocs all state; a frame proof would be vacuous)
+//@ func (TrueSet).Map(arg0; f)
+//@   tags C10
+//@   fnparam * pure
+//@   requires f != nil
+
+//@ func (TrueSet).Where(t; p)
+//@   tags C10
+//@   assigns fresh-only
+//@   fnparam * pure
+//@   requires p != nil
+
+//@ func (TrueSet).CallAll(arg0; arg1, arg2, arg3)
+//@   tags C10
+//@   assigns fresh-only
+//@   fnparam * pure
+//@   requires arg2 != nil
+
+//@ func (TrueSet).unionSetSubsetBucket(arg0;)
+//@   tags C10
+//@   assigns fresh-only
+//@   fnparam * pure
+
+// ---- rel/value_tuple.go --------------------------------------------------------------
+
+// writes the builder (caller-visible state): no frame claimed
+//@ func (*TupleBuilder).Put(b; name, value)
+//@   tags C10
+//@   fnparam * pure
+//@   requires b != nil
+
+// FINDING (C10): `.(Number)` on the "@" / "@char" / "@byte" values: `(@: "x", @char: 1, c: 2).~|c|`
+//@ func (*TupleBuilder).Finish(b;)
+//@   tags C10
+//@   fnparam * pure
+//@   requires b != nil
+//@   requires b != nil
+// (covered elsewhere: rel.NewAttr in verif_contracts_c04.go)
+
+//@ func NewBoolAttr(name, value)
+//@   tags C10
+//@   assigns fresh-only
+//@   fnparam * pure
+
+//@ func NewFloatAttr(name, value)
+//@   tags C10
+//@   assigns fresh-only
+//@   fnparam * pure
+
+//@ func NewIntAttr(name, value)
+//@   tags C10
+//@   assigns fresh-only
+//@   fnparam * pure
+
+//@ func NewUintAttr(name, value)
+//@   tags C10
+//@   assigns fresh-only
+//@   fnparam * pure
+
+//@ func NewStringAttr(name, value)
+//@   tags C10
+//@   assigns fresh-only
+//@   fnparam * pure
+
+// (not under contract here: NewTupleAttr — first pass: 3 of 3 obligations not proved (pre×3))
+// (covered elsewhere: rel.NewTuple in verif_contracts_c04.go)
+
+// (not under contract here: newTuple — first pass: 1 of 10 obligations not proved (pre×1))
+
+// (not under contract here: NewTupleFromMap — first pass: 1 of 9 obligations not proved (pre×1))
+
+// (not under contract here: MergeTuples — first pass: 7 of 16 obligations not proved (safe.nil×5, safe.assert×2))
+
+// (not under contract here: NewXML — first pass: 5 of 16 obligations not proved (pre×5))
+
+// no frame claimed: the function writes caller-visible state or the frame is beyond the thin contract (frame.HF.frozen.MapBuilder_string__rel.Value_.0@r1, frame.HF.frozen.MapBuilder_string__rel.Value_.1@r1)
+//@ func newGenericTuple(attrs)
+//@   tags C10
+//@   fnparam * pure
+//@   ensures result != nil
+
+//@ func (*GenericTuple).Canonical(t;)
+//@   tags C10
+//@   assigns fresh-only
+//@   fnparam * pure
+//@   requires t != nil
+//@   requires t != nil
+//@   modifies HS|rel.Attr
+
+//@ func (*GenericTuple).Hash(t; seed)
+//@   tags C10
+//@   assigns fresh-only
+//@   fnparam * pure
+//@   requires t != nil
+//@   requires t != nil
+
+//@ func (*GenericTuple).Equal(t; v)
+//@   tags C10
+//@   fnparam * pure
+//@   requires t != nil
+//@   requires v != nil
+//@   requires t != nil
+
+// no frame claimed: the function writes caller-visible state or the frame is beyond the thin contract (frame.G.wout@r1)
+//@ func TupleNameRepr(name)
+//@   tags C10
+//@   fnparam * pure
+
+// no frame claimed: calls a repo function without contract (engine havocs all state; a frame proof would be vacuous)
+//@ func (*GenericTuple).String(t;)
+//@   tags C10
+//@   fnparam * pure
+//@   requires t != nil
+//@   requires t != nil
+
+// no frame claimed: the function writes caller-visible state or the frame is beyond the thin contract (frame.G.wout)
+//@ func (*GenericTuple).Format(t; f, verb)
+//@   tags C10
+//@   fnparam * pure
+//@   requires t != nil
+
+//@ func (*GenericTuple).Eval(t; ctx, local)
+//@   tags C10
+//@   assigns fresh-only
+//@   fnparam * pure
+//@   requires t != nil
+//@   requires t != nil
+
+//@ func (*GenericTuple).Source(t;)
+//@   tags C10
+//@   assigns fresh-only
+//@   fnparam * pure
+//@   requires t != nil
+
+// (not under contract here: (*GenericTuple).Kind — first pass: 1 of 5 obligations not proved (safe.nil×1))
+
+//@ func (*GenericTuple).IsTrue(t;)
+//@   tags C10
+//@   assigns fresh-only
+//@   fnparam * pure
+//@   requires t != nil
+//@   requires t != nil
+
+// (not under contract here: (*GenericTuple).Less — first pass: 7 of 32 obligations not proved (safe.assert×2, safe.nil×2, safe.panic×2, pre×1))
+
+//@ func (*GenericTuple).Negate(t;)
+//@   tags C10
+//@   assigns fresh-only
+//@   fnparam * pure
+//@   requires t != nil
+//@   requires t != nil
+//@   modifies HS|rel.Attr
+
+// no frame claimed: calls a repo function without contract (engine havocs all state; a frame proof would be vacuous)
+//@ func (*GenericTuple).Export(t; ctx)
+//@   tags C10
+//@   fnparam * pure
+//@   requires t != nil
+//@   requires t != nil
+
+// no frame claimed: calls a repo function without contract (engine havocs all state; a frame proof would be vacuous)
+//@ func (*GenericTuple).getSetBuilder(t;)
+//@   tags C10
+//@   fnparam * pure
+//@   requires t != nil
+//@   requires t != nil
+// (covered elsewhere: (*rel.GenericTuple).getBucket in verif_contracts_c11.go)
+// (covered elsewhere: (*rel.GenericTuple).getBucket$1 in verif_contracts_c11.go)
+// (covered elsewhere: (rel.NamesSlice).hasIntersect in verif_contracts_c04.go)
+// (covered elsewhere: (rel.NamesSlice).intersect in verif_contracts_c04.go)
+// (covered elsewhere: (rel.NamesSlice).minus in verif_contracts_c04.go)
+// (covered elsewhere: (rel.NamesSlice).isSubset in verif_contracts_c04.go)
+// (covered elsewhere: (rel.NamesSlice).intoSet in verif_contracts_c04.go)
+
+//@ func (NamesSlice).String(n;)
+//@   tags C10
+//@   assigns fresh-only
+//@   fnparam * pure
+
+//@ func (NamesSlice).EqualNamesSlice(n; n2)
+//@   tags C10
+//@   assigns fresh-only
+//@   fnparam * pure
+
+// no frame claimed: calls a repo function without contract (engine havocs all state; a frame proof would be vacuous)
+//@ func (NamesSlice).EqualTupleAttrs(n; t)
+//@   tags C10
+//@   fnparam * pure
+//@   requires t != nil
+//@   requires t != nil
+
+//@ func (NamesSlice).LessNamesSlice(n; n2)
+//@   tags C10
+//@   assigns fresh-only
+//@   fnparam * pure
+
+//@ func (NamesSlice).GetSorted(n;)
+//@   tags C10
+//@   assigns fresh-only
+//@   fnparam * pure
+//@   ensures len(result) == len(n)
+
+//@ func newHashableNamesSlice(n)
+//@   tags C10
+//@   assigns fresh-only
+//@   fnparam * pure
+
+//@ func (hashableNamesSlice).String(s;)
+//@   tags C10
+//@   assigns fresh-only
+//@   fnparam * pure
+
+//@ func (*GenericTuple).Count(t;)
+//@   tags C10
+//@   assigns fresh-only
+//@   fnparam * pure
+//@   requires t != nil
+//@   requires t != nil
+
+//@ func (*GenericTuple).Get(t; name)
+//@   tags C10
+//@   assigns fresh-only
+//@   fnparam * pure
+//@   requires t != nil
+//@   requires t != nil
+
+// (not under contract here: (*GenericTuple).MustGet — first pass: 1 of 3 obligations not proved (safe.panic×1))
+
+//@ func (*GenericTuple).With(t; name, value)
+//@   tags C10
+//@   assigns fresh-only
+//@   fnparam * pure
+//@   requires t != nil
+//@   requires value != nil
+//@   requires t != nil
+//@   ensures result is *GenericTuple && result.(*GenericTuple) != nil
+
+//@ func (*GenericTuple).Without(t; name)
+//@   tags C10
+//@   assigns fresh-only
+//@   fnparam * pure
+//@   requires t != nil
+//@   requires t != nil
+//@   ensures result is *GenericTuple && result.(*GenericTuple) != nil
+
+//@ func (*GenericTuple).Map(t; f)
+//@   tags C10
+//@   fnparam * pure
+//@   requires t != nil
+//@   requires f != nil
+//@   requires t != nil && f != nil
+
+//@ func (*GenericTuple).HasName(t; name)
+//@   tags C10
+//@   assigns fresh-only
+//@   fnparam * pure
+//@   requires t != nil
+//@   requires t != nil
+// (covered elsewhere: (*rel.GenericTuple).Names in verif_contracts_c11.go)
+// (covered elsewhere: (*rel.GenericTuple).Names$1 in verif_contracts_c11.go)
+
+// no frame claimed: calls a repo function without contract (engine havocs all state; a frame proof would be vacuous)
+//@ func (*GenericTuple).Project(t; names)
+//@   tags C10
+//@   fnparam * pure
+//@   requires t != nil
+//@   requires t != nil
+
+//@ func (*GenericTupleEnumerator).MoveNext(e;)
+//@   tags C10
+//@   fnparam * pure
+//@   requires e != nil
+//@   requires e != nil
+
+//@ func (*GenericTupleEnumerator).Current(e;)
+//@   tags C10
+//@   assigns fresh-only
+//@   fnparam * pure
+//@   requires e != nil
+//@   requires e != nil
+
+//@ func (*GenericTuple).Enumerator(t;)
+//@   tags C10
+//@   assigns fresh-only
+//@   fnparam * pure
+//@   requires t != nil
+//@   requires t != nil
+//@   ensures result != nil
+// (covered elsewhere: rel.TupleOrderedNames in verif_contracts_c11.go)
+// (covered elsewhere: rel.TupleOrderedNames$1 in verif_contracts_c11.go)
+
+// ---- rel/value_tuple_array_item.go ---------------------------------------------------
+
+// (the item is only stored, never dereferenced here)
+//@ func NewArrayItemTuple(at, item)
+//@   tags C10
+//@   assigns fresh-only
+//@   fnparam * pure
+
+// no frame claimed: calls a repo function without contract (engine havocs all state; a frame proof would be vacuous)
+//@ func newArrayItemTupleFromTuple(t)
+//@   tags C10
+//@   fnparam * pure
+//@   requires t != nil
+
+// no frame claimed: the function writes caller-visible state or the frame is beyond the thin contract (frame.captured.at)
+//@ func newArrayItemTupleFromTuple$1(i)
+//@   tags C10
+//@   fnparam * pure
+
+// no frame claimed: the function writes caller-visible state or the frame is beyond the thin contract (frame.captured.item)
+//@ func newArrayItemTupleFromTuple$2(v)
+//@   tags C10
+//@   fnparam * pure
+//@   requires v != nil
+
+//@ func maybeNewArrayItemTupleFromTuple(t)
+//@   tags C10
+//@   assigns fresh-only
+//@   fnparam * pure
+//@   requires t != nil
+//@   ensures result != nil
+
+//@ func (ArrayItemTuple).asGenericTuple(t;)
+//@   tags C10
+//@   assigns fresh-only
+//@   fnparam * pure
+//@   requires t.item != nil
+//@   ensures result != nil
+
+//@ func (ArrayItemTuple).Hash(t; seed)
+//@   tags C10
+//@   assigns fresh-only
+//@   fnparam * pure
+//@   requires t.item != nil
+
+//@ func (ArrayItemTuple).Equal(t; v)
+//@   tags C10
+//@   assigns fresh-only
+//@   fnparam * pure
+//@   requires t.item != nil
+//@   requires v != nil
+
+// no frame claimed: calls a repo function without contract (engine havocs all state; a frame proof would be vacuous)
+//@ func (ArrayItemTuple).String(t;)
+//@   tags C10
+//@   fnparam * pure
+//@   requires t.item != nil
+
+//@ func (ArrayItemTuple).Format(t; f, verb)
+//@   tags C10
+//@   assigns fresh-only
+//@   fnparam * pure
+//@   requires t.item != nil
+
+//@ func (ArrayItemTuple).Eval(t; ctx, local)
+//@   tags C10
+//@   assigns fresh-only
+//@   fnparam * pure
+//@   requires t.item != nil
+
+//@ func (ArrayItemTuple).Source(t;)
+//@   tags C10
+//@   assigns fresh-only
+//@   fnparam * pure
+//@   requires t.item != nil
+// (covered elsewhere: (rel.ArrayItemTuple).Kind in verif_contracts_c06.go)
+
+//@ func (ArrayItemTuple).IsTrue(t;)
+//@   tags C10
+//@   assigns fresh-only
+//@   fnparam * pure
+//@   requires t.item != nil
+// (covered elsewhere: (rel.ArrayItemTuple).Less in verif_contracts_c06.go)
+
+//@ func (ArrayItemTuple).Negate(t;)
+//@   tags C10
+//@   assigns fresh-only
+//@   fnparam * pure
+//@   requires t.item != nil
+
+// no frame claimed: the function writes caller-visible state or the frame is beyond the thin contract (frame.MD.map_string_interface__, frame.ML.map_string_interface__)
+// no frame claimed: calls a repo function without contract (engine havocs all state; a frame proof would be vacuous)
+//@ func (ArrayItemTuple).Export(t; ctx)
+//@   tags C10
+//@   fnparam * pure
+//@   requires t.item != nil
+
+//@ func (ArrayItemTuple).getSetBuilder(arg0;)
+//@   tags C10
+//@   assigns fresh-only
+//@   fnparam * pure
+//@   requires arg0.item != nil
+
+//@ func (ArrayItemTuple).getBucket(arg0;)
+//@   tags C10
+//@   assigns fresh-only
+//@   fnparam * pure
+//@   requires arg0.item != nil
+
+//@ func (ArrayItemTuple).Count(t;)
+//@   tags C10
+//@   assigns fresh-only
+//@   fnparam * pure
+//@   requires t.item != nil
+
+//@ func (ArrayItemTuple).Get(t; name)
+//@   tags C10
+//@   assigns fresh-only
+//@   fnparam * pure
+//@   requires t.item != nil
+//@   ensures has: result.1 == (name == "@" || name == "@item")
+
+//@ func (ArrayItemTuple).MustGet(t; name)
+//@   tags C10
+//@   assigns fresh-only
+//@   fnparam * pure
+//@   requires t.item != nil
+//@   requires present: name == "@" || name == "@item"
+
+//@ func (ArrayItemTuple).With(t; name, value)
+//@   tags C10
+//@   assigns fresh-only
+//@   fnparam * pure
+//@   requires t.item != nil
+//@   requires value != nil
+
+//@ func (ArrayItemTuple).Without(t; name)
+//@   tags C10
+//@   assigns fresh-only
+//@   fnparam * pure
+//@   requires t.item != nil
+
+//@ func (ArrayItemTuple).Map(t; f)
+//@   tags C10
+//@   assigns fresh-only
+//@   fnparam * pure
+//@   requires t.item != nil
+//@   requires f != nil
+
+//@ func (ArrayItemTuple).HasName(t; name)
+//@   tags C10
+//@   assigns fresh-only
+//@   fnparam * pure
+//@   requires t.item != nil
+
+// no frame claimed: calls a repo function without contract (engine havocs all state; a frame proof would be vacuous)
+//@ func (ArrayItemTuple).Names(t;)
+//@   tags C10
+//@   fnparam * pure
+//@   requires t.item != nil
+
+// no frame claimed: calls a repo function without contract (engine havocs all state; a frame proof would be vacuous)
+//@ func (ArrayItemTuple).Project(t; names)
+//@   tags C10
+//@   fnparam * pure
+//@   requires t.item != nil
+
+//@ func (ArrayItemTuple).Enumerator(t;)
+//@   tags C10
+//@   assigns fresh-only
+//@   fnparam * pure
+//@   requires t.item != nil
+
+//@ func (*arrayItemTupleEnumerator).MoveNext(e;)
+//@   tags C10
+//@   assigns fresh-only
+//@   fnparam * pure
+//@   requires e != nil
+//@   modifies rel.arrayItemTupleEnumerator
+
+//@ func (*arrayItemTupleEnumerator).Current(e;)
+//@   tags C10
+//@   assigns fresh-only
+//@   fnparam * pure
+//@   requires e != nil
+
+// ---- rel/value_tuple_bytes_byte.go ---------------------------------------------------
+// (covered elsewhere: rel.NewBytesByteTuple in verif_contracts.go)
+
+// no frame claimed: calls a repo function without contract (engine havocs all state; a frame proof would be vacuous)
+//@ func newBytesByteTupleFromTuple(t)
+//@   tags C10
+//@   fnparam * pure
+//@   requires t != nil
+
+// no frame claimed: the function writes caller-visible state or the frame is beyond the thin contract (frame.captured.at)
+//@ func newBytesByteTupleFromTuple$1(i)
+//@   tags C10
+//@   fnparam * pure
+
+// no frame claimed: the function writes caller-visible state or the frame is beyond the thin contract (frame.captured.byteval)
+//@ func newBytesByteTupleFromTuple$2(i)
+//@   tags C10
+//@   fnparam * pure
+
+//@ func maybeNewBytesByteTupleFromTuple(t)
+//@   tags C10
+//@   assigns fresh-only
+//@   fnparam * pure
+//@   requires t != nil
+//@   ensures result != nil
+
+//@ func (BytesByteTuple).asGenericTuple(t;)
+//@   tags C10
+//@   assigns fresh-only
+//@   fnparam * pure
+//@   ensures result != nil
+
+//@ func (BytesByteTuple).Hash(t; seed)
+//@   tags C10
+//@   assigns fresh-only
+//@   fnparam * pure
+
+//@ func (BytesByteTuple).Equal(t; v)
+//@   tags C10
+//@   assigns fresh-only
+//@   fnparam * pure
+//@   requires v != nil
+
+// no frame claimed: calls a repo function without contract (engine havocs all state; a frame proof would be vacuous)
+//@ func (BytesByteTuple).String(t;)
+//@   tags C10
+//@   fnparam * pure
+
+// no frame claimed: the function writes caller-visible state or the frame is beyond the thin contract (frame.G.wout)
+//@ func (BytesByteTuple).Format(t; f, verb)
+//@   tags C10
+//@   fnparam * pure
+
+//@ func (BytesByteTuple).Eval(t; ctx, local)
+//@   tags C10
+//@   assigns fresh-only
+//@   fnparam * pure
+
+//@ func (BytesByteTuple).Source(t;)
+//@   tags C10
+//@   assigns fresh-only
+//@   fnparam * pure
+// (covered elsewhere: (rel.BytesByteTuple).Kind in verif_contracts_c06.go)
+
+//@ func (BytesByteTuple).IsTrue(t;)
+//@   tags C10
+//@   assigns fresh-only
+//@   fnparam * pure
+// (covered elsewhere: (rel.BytesByteTuple).Less in verif_contracts_c06.go)
+
+// no frame claimed: the function writes caller-visible state or the frame is beyond the thin contract (frame.HS.rel.Attr.0, frame.HS.rel.Attr.1)
+//@ func (BytesByteTuple).Negate(t;)
+//@   tags C10
+//@   fnparam * pure
+
+//@ func (BytesByteTuple).Export(t; p1)
+//@   tags C10
+//@   assigns fresh-only
+//@   fnparam * pure
+
+//@ func (BytesByteTuple).getSetBuilder(arg0;)
+//@   tags C10
+//@   assigns fresh-only
+//@   fnparam * pure
+
+//@ func (BytesByteTuple).getBucket(arg0;)
+//@   tags C10
+//@   assigns fresh-only
+//@   fnparam * pure
+
+//@ func (BytesByteTuple).Count(t;)
+//@   tags C10
+//@   assigns fresh-only
+//@   fnparam * pure
+
+//@ func (BytesByteTuple).Get(t; name)
+//@   tags C10
+//@   assigns fresh-only
+//@   fnparam * pure
+//@   ensures has: result.1 == (name == "@" || name == "@byte")
+
+//@ func (BytesByteTuple).MustGet(t; name)
+//@   tags C10
+//@   assigns fresh-only
+//@   fnparam * pure
+//@   requires present: name == "@" || name == "@byte"
+
+//@ func (BytesByteTuple).With(t; name, value)
+//@   tags C10
+//@   assigns fresh-only
+//@   fnparam * pure
+//@   requires value != nil
+
+//@ func (BytesByteTuple).Without(t; name)
+//@   tags C10
+//@   assigns fresh-only
+//@   fnparam * pure
+
+//@ func (BytesByteTuple).Map(t; f)
+//@   tags C10
+//@   assigns fresh-only
+//@   fnparam * pure
+//@   requires f != nil
+
+//@ func (BytesByteTuple).HasName(t; name)
+//@   tags C10
+//@   assigns fresh-only
+//@   fnparam * pure
+
+// no frame claimed: calls a repo function without contract (engine havocs all state; a frame proof would be vacuous)
+//@ func (BytesByteTuple).Names(t;)
+//@   tags C10
+//@   fnparam * pure
+
+// no frame claimed: calls a repo function without contract (engine havocs all state; a frame proof would be vacuous)
+//@ func (BytesByteTuple).Project(t; names)
+//@   tags C10
+//@   fnparam * pure
+
+//@ func (BytesByteTuple).Enumerator(t;)
+//@   tags C10
+//@   assigns fresh-only
+//@   fnparam * pure
+
+//@ func (*bytesByteTupleEnumerator).MoveNext(e;)
+//@   tags C10
+//@   assigns fresh-only
+//@   fnparam * pure
+//@   requires e != nil
+//@   modifies rel.bytesByteTupleEnumerator
+
+//@ func (*bytesByteTupleEnumerator).Current(e;)
+//@   tags C10
+//@   assigns fresh-only
+//@   fnparam * pure
+//@   requires e != nil
+
+// ---- rel/value_tuple_dict_entry.go ---------------------------------------------------
+
+//@ func NewDictEntryTuple(at, item)
+//@   tags C10
+//@   assigns fresh-only
+//@   fnparam * pure
+
+// no frame claimed: calls a repo function without contract (engine havocs all state; a frame proof would be vacuous)
+//@ func newDictEntryTupleFromTuple(t)
+//@   tags C10
+//@   fnparam * pure
+//@   requires t != nil
+
+// no frame claimed: the function writes caller-visible state or the frame is beyond the thin contract (frame.captured.at)
+//@ func newDictEntryTupleFromTuple$1(i)
+//@   tags C10
+//@   fnparam * pure
+//@   requires i != nil
+
+// no frame claimed: the function writes caller-visible state or the frame is beyond the thin contract (frame.captured.item)
+//@ func newDictEntryTupleFromTuple$2(v)
+//@   tags C10
+//@   fnparam * pure
+//@   requires v != nil
+
+//@ func maybeNewDictEntryTupleFromTuple(t)
+//@   tags C10
+//@   assigns fresh-only
+//@   fnparam * pure
+//@   requires t != nil
+//@   ensures result != nil
+
+//@ func (DictEntryTuple).asGenericTuple(t;)
+//@   tags C10
+//@   assigns fresh-only
+//@   fnparam * pure
+//@   requires t.at != nil
+//@   requires t.value != nil
+//@   ensures result != nil
+
+//@ func (DictEntryTuple).Hash(t; seed)
+//@   tags C10
+//@   assigns fresh-only
+//@   fnparam * pure
+//@   requires t.at != nil
+//@   requires t.value != nil
+
+//@ func (DictEntryTuple).Equal(t; v)
+//@   tags C10
+//@   assigns fresh-only
+//@   fnparam * pure
+//@   requires t.at != nil
+//@   requires t.value != nil
+//@   requires v != nil
+
+// no frame claimed: calls a repo function without contract (engine havocs all state; a frame proof would be vacuous)
+//@ func (DictEntryTuple).String(t;)
+//@   tags C10
+//@   fnparam * pure
+//@   requires t.at != nil
+//@   requires t.value != nil
+
+// no frame claimed: the function writes caller-visible state or the frame is beyond the thin contract (frame.G.wout)
+//@ func (DictEntryTuple).Format(t; f, verb)
+//@   tags C10
+//@   fnparam * pure
+//@   requires t.at != nil
+//@   requires t.value != nil
+
+//@ func (DictEntryTuple).Eval(t; ctx, local)
+//@   tags C10
+//@   assigns fresh-only
+//@   fnparam * pure
+//@   requires t.at != nil
+//@   requires t.value != nil
+
+//@ func (DictEntryTuple).Source(t;)
+//@   tags C10
+//@   assigns fresh-only
+//@   fnparam * pure
+//@   requires t.at != nil
+//@   requires t.value != nil
+// (covered elsewhere: (rel.DictEntryTuple).Kind in verif_contracts_c06.go)
+
+//@ func (DictEntryTuple).IsTrue(t;)
+//@   tags C10
+//@   assigns fresh-only
+//@   fnparam * pure
+//@   requires t.at != nil
+//@   requires t.value != nil
+// (covered elsewhere: (rel.DictEntryTuple).Less in verif_contracts_c06.go)
+
+//@ func (DictEntryTuple).Negate(t;)
+//@   tags C10
+//@   assigns fresh-only
+//@   fnparam * pure
+//@   requires t.at != nil
+//@   requires t.value != nil
+
+// no frame claimed: the function writes caller-visible state or the frame is beyond the thin contract (frame.MD.map_string_interface__, frame.ML.map_string_interface__)
+// no frame claimed: calls a repo function without contract (engine havocs all state; a frame proof would be vacuous)
+//@ func (DictEntryTuple).Export(t; ctx)
+//@   tags C10
+//@   fnparam * pure
+//@   requires t.at != nil
+//@   requires t.value != nil
+
+//@ func (DictEntryTuple).getSetBuilder(arg0;)
+//@   tags C10
+//@   assigns fresh-only
+//@   fnparam * pure
+//@   requires arg0.at != nil
+//@   requires arg0.value != nil
+
+//@ func (DictEntryTuple).getBucket(arg0;)
+//@   tags C10
+//@   assigns fresh-only
+//@   fnparam * pure
+//@   requires arg0.at != nil
+//@   requires arg0.value != nil
+
+//@ func (DictEntryTuple).Count(t;)
+//@   tags C10
+//@   assigns fresh-only
+//@   fnparam * pure
+//@   requires t.at != nil
+//@   requires t.value != nil
+// (covered elsewhere: (rel.DictEntryTuple).Get in verif_contracts_c19.go)
+// (covered elsewhere: (rel.DictEntryTuple).MustGet in verif_contracts_c19.go)
+
+//@ func (DictEntryTuple).With(t; name, value)
+//@   tags C10
+//@   assigns fresh-only
+//@   fnparam * pure
+//@   requires t.at != nil
+//@   requires t.value != nil
+//@   requires value != nil
+
+//@ func (DictEntryTuple).Without(t; name)
+//@   tags C10
+//@   assigns fresh-only
+//@   fnparam * pure
+//@   requires t.at != nil
+//@   requires t.value != nil
+
+//@ func (DictEntryTuple).Map(t; f)
+//@   tags C10
+//@   assigns fresh-only
+//@   fnparam * pure
+//@   requires t.at != nil
+//@   requires t.value != nil
+//@   requires f != nil
+
+//@ func (DictEntryTuple).HasName(t; name)
+//@   tags C10
+//@   assigns fresh-only
+//@   fnparam * pure
+//@   requires t.at != nil
+//@   requires t.value != nil
+
+// no frame claimed: calls a repo function without contract (engine havocs all state; a frame proof would be vacuous)
+//@ func (DictEntryTuple).Names(t;)
+//@   tags C10
+//@   fnparam * pure
+//@   requires t.at != nil
+//@   requires t.value != nil
+
+// no frame claimed: calls a repo function without contract (engine havocs all state; a frame proof would be vacuous)
+//@ func (DictEntryTuple).Project(t; names)
+//@   tags C10
+//@   fnparam * pure
+//@   requires t.at != nil
+//@   requires t.value != nil
+
+//@ func (DictEntryTuple).Enumerator(t;)
+//@   tags C10
+//@   assigns fresh-only
+//@   fnparam * pure
+//@   requires t.at != nil
+//@   requires t.value != nil
+
+//@ func (*dictEntryTupleEnumerator).MoveNext(e;)
+//@   tags C10
+//@   assigns fresh-only
+//@   fnparam * pure
+//@   requires e != nil
+//@   modifies rel.dictEntryTupleEnumerator
+
+//@ func (*dictEntryTupleEnumerator).Current(e;)
+//@   tags C10
+//@   assigns fresh-only
+//@   fnparam * pure
+//@   requires e != nil
+
+// ---- rel/value_tuple_str_char.go -----------------------------------------------------
+// (covered elsewhere: rel.NewStringCharTuple in verif_contracts.go)
+
+// no frame claimed: calls a repo function without contract (engine havocs all state; a frame proof would be vacuous)
+//@ func newCharTupleFromTuple(t)
+//@   tags C10
+//@   fnparam * pure
+//@   requires t != nil
+
+// no frame claimed: the function writes caller-visible state or the frame is beyond the thin contract (frame.captured.at)
+//@ func newCharTupleFromTuple$1(i)
+//@   tags C10
+//@   fnparam * pure
+
+// no frame claimed: the function writes caller-visible state or the frame is beyond the thin contract (frame.captured.char)
+//@ func newCharTupleFromTuple$2(i)
+//@   tags C10
+//@   fnparam * pure
+
+//@ func maybeNewCharTupleFromTuple(t)
+//@   tags C10
+//@   assigns fresh-only
+//@   fnparam * pure
+//@   requires t != nil
+//@   ensures result != nil
+
+//@ func (StringCharTuple).asGenericTuple(t;)
+//@   tags C10
+//@   assigns fresh-only
+//@   fnparam * pure
+//@   ensures result != nil
+
+//@ func (StringCharTuple).Hash(t; seed)
+//@   tags C10
+//@   assigns fresh-only
+//@   fnparam * pure
+
+//@ func (StringCharTuple).Equal(t; v)
+//@   tags C10
+//@   assigns fresh-only
+//@   fnparam * pure
+//@   requires v != nil
+
+// no frame claimed: calls a repo function without contract (engine havocs all state; a frame proof would be vacuous)
+//@ func (StringCharTuple).String(t;)
+//@   tags C10
+//@   fnparam * pure
+
+// no frame claimed: the function writes caller-visible state or the frame is beyond the thin contract (frame.G.wout)
+//@ func (StringCharTuple).Format(t; f, verb)
+//@   tags C10
+//@   fnparam * pure
+
+//@ func (StringCharTuple).Eval(t; ctx, local)
+//@   tags C10
+//@   assigns fresh-only
+//@   fnparam * pure
+
+//@ func (StringCharTuple).Source(t;)
+//@   tags C10
+//@   assigns fresh-only
+//@   fnparam * pure
+// (covered elsewhere: (rel.StringCharTuple).Kind in verif_contracts_c06.go)
+
+//@ func (StringCharTuple).IsTrue(t;)
+//@   tags C10
+//@   assigns fresh-only
+//@   fnparam * pure
+// (covered elsewhere: (rel.StringCharTuple).Less in verif_contracts_c06.go)
+
+//@ func (StringCharTuple).Negate(t;)
+//@   tags C10
+//@   assigns fresh-only
+//@   fnparam * pure
+
+//@ func (StringCharTuple).Export(t; p1)
+//@   tags C10
+//@   assigns fresh-only
+//@   fnparam * pure
+
+//@ func (StringCharTuple).getSetBuilder(t;)
+//@   tags C10
+//@   assigns fresh-only
+//@   fnparam * pure
+
+//@ func (StringCharTuple).getBucket(t;)
+//@   tags C10
+//@   assigns fresh-only
+//@   fnparam * pure
+
+//@ func (StringCharTuple).Count(t;)
+//@   tags C10
+//@   assigns fresh-only
+//@   fnparam * pure
+
+//@ func (StringCharTuple).Get(t; name)
+//@   tags C10
+//@   assigns fresh-only
+//@   fnparam * pure
+//@   ensures has: result.1 == (name == "@" || name == "@char")
+
+//@ func (StringCharTuple).MustGet(t; name)
+//@   tags C10
+//@   assigns fresh-only
+//@   fnparam * pure
+//@   requires present: name == "@" || name == "@char"
+
+//@ func (StringCharTuple).With(t; name, value)
+//@   tags C10
+//@   assigns fresh-only
+//@   fnparam * pure
+//@   requires value != nil
+
+//@ func (StringCharTuple).Without(t; name)
+//@   tags C10
+//@   assigns fresh-only
+//@   fnparam * pure
+
+//@ func (StringCharTuple).Map(t; f)
+//@   tags C10
+//@   assigns fresh-only
+//@   fnparam * pure
+//@   requires f != nil
+
+//@ func (StringCharTuple).HasName(t; name)
+//@   tags C10
+//@   assigns fresh-only
+//@   fnparam * pure
+
+// no frame claimed: calls a repo function without contract (engine havocs all state; a frame proof would be vacuous)
+//@ func (StringCharTuple).Names(t;)
+//@   tags C10
+//@   fnparam * pure
+
+// no frame claimed: calls a repo function without contract (engine havocs all state; a frame proof would be vacuous)
+//@ func (StringCharTuple).Project(t; names)
+//@   tags C10
+//@   fnparam * pure
+
+//@ func (StringCharTuple).Enumerator(t;)
+//@   tags C10
+//@   assigns fresh-only
+//@   fnparam * pure
+
+//@ func (*stringCharTupleEnumerator).MoveNext(e;)
+//@   tags C10
+//@   assigns fresh-only
+//@   fnparam * pure
+//@   requires e != nil
+//@   modifies rel.stringCharTupleEnumerator
+
+//@ func (*stringCharTupleEnumerator).Current(e;)
+//@   tags C10
+//@   assigns fresh-only
+//@   fnparam * pure
+//@   requires e != nil
+
+// ---- rel/ops_set_rank.go -------------------------------------------------------------
+
+// FINDING (C10): `e.Current().(Tuple)` — `{1,2} rank (:.)` crashes
+// no frame claimed: calls a repo function without contract (engine havocs all state; a frame proof would be vacuous)
+//@ func Rank(s, rankerf)
+//@   tags C10
+//@   fnparam * pure
+//@   requires s != nil
+//@   requires rankerf != nil
